@@ -863,6 +863,69 @@ func genManyRestrictions(r *rng) *Model {
 	return m
 }
 
+// genOperatorLattice: one base relation with several types consumed by several
+// intersections and exclusions, each of which keeps another part of its types
+// (whatever an operator does to the map of one operand must not reach the
+// operand's own node, nor the other consumers of it).
+func genOperatorLattice(r *rng) *Model {
+	m := &Model{Schema: "1.1"}
+	nt := 3 + r.intn(3)
+	var ts []string
+	for i := 0; i < nt; i++ {
+		ts = append(ts, fmt.Sprintf("u%d", i))
+		m.Types = append(m.Types, &Type{Name: ts[i]})
+	}
+	doc := &Type{Name: "doc"}
+	refs := func(idx ...int) []Ref {
+		var out []Ref
+		for _, i := range idx {
+			out = append(out, Ref{Type: ts[i%nt], Wild: r.chance(15)})
+		}
+		return out
+	}
+	all := make([]int, nt)
+	for i := range all {
+		all[i] = i
+	}
+	doc.Relations = append(doc.Relations, &Relation{Name: "base", Expr: &Expr{Kind: KThis}, Direct: refs(all...)})
+	nsub := 2 + r.intn(3)
+	for i := 0; i < nsub; i++ {
+		var idx []int
+		for j := 0; j < nt; j++ {
+			if r.chance(45) {
+				idx = append(idx, j)
+			}
+		}
+		if len(idx) == 0 {
+			idx = []int{i % nt}
+		}
+		doc.Relations = append(doc.Relations, &Relation{Name: fmt.Sprintf("s%d", i), Expr: &Expr{Kind: KThis}, Direct: refs(idx...)})
+	}
+	for i := 0; i < nsub+1+r.intn(3); i++ {
+		a := &Expr{Kind: KComputed, Rel: "base"}
+		if r.chance(20) {
+			a = &Expr{Kind: KComputed, Rel: fmt.Sprintf("s%d", r.intn(nsub))}
+		}
+		bx := &Expr{Kind: KComputed, Rel: fmt.Sprintf("s%d", r.intn(nsub))}
+		kind := []string{KInter, KInter, KExcl, KUnion}[r.intn(4)]
+		ch := []*Expr{a, bx}
+		if kind != KExcl && r.chance(40) {
+			ch = []*Expr{bx, a}
+		}
+		if kind == KInter && r.chance(30) {
+			ch = append(ch, &Expr{Kind: KComputed, Rel: fmt.Sprintf("s%d", r.intn(nsub))})
+		}
+		doc.Relations = append(doc.Relations, &Relation{Name: fmt.Sprintf("x%d", i), Expr: &Expr{Kind: kind, Children: ch}})
+	}
+	// consumers of the consumers
+	doc.Relations = append(doc.Relations, &Relation{Name: "top", Expr: &Expr{Kind: KUnion, Children: []*Expr{{Kind: KComputed, Rel: "x0"}, {Kind: KComputed, Rel: "base"}}}})
+	for i, j := range r.perm(len(doc.Relations)) {
+		doc.Relations[i], doc.Relations[j] = doc.Relations[j], doc.Relations[i]
+	}
+	m.Types = append(m.Types, doc)
+	return m
+}
+
 // genOddNames: the separator-collision idea with characters only the JSON /
 // protobuf form can carry in a name (validation allows everything but
 // ':', '#', '@' and whitespace): "a,b" next to "a" and "b", as types, public
@@ -875,6 +938,9 @@ func genOddNames(r *rng) *Model {
 	}
 	ab := a + sep + b
 	if r.chance(15) {
+		// a name that ends in the characters of the wildcard suffix
+		ab = a + []string{":", "*", "::", ":*"}[r.intn(4)]
+	} else if r.chance(15) {
 		// a user type whose name carries the library's internal marker in the
 		// middle or at its end (no type "HR" / "X" exists, so no label is ambiguous)
 		ab = []string{"HR#staff", "XR#", "a#R#b"}[r.intn(3)]
@@ -899,6 +965,9 @@ func genOddNames(r *rng) *Model {
 		&Relation{Name: "y", Expr: &Expr{Kind: KThis}, Direct: pub(ab)},
 		&Relation{Name: "z", Expr: &Expr{Kind: []string{KUnion, KInter}[r.intn(2)], Children: []*Expr{{Kind: KComputed, Rel: "x"}, {Kind: KComputed, Rel: "y"}}}},
 		&Relation{Name: "w", Expr: &Expr{Kind: KUnion, Children: []*Expr{{Kind: KThis}, {Kind: KComputed, Rel: "x"}}}, Direct: []Ref{{Type: doc.Name, Rel: "w"}, {Type: ab, Wild: true}}},
+		&Relation{Name: "pw", Expr: &Expr{Kind: KThis}, Direct: []Ref{{Type: ab, Wild: true}}},
+		&Relation{Name: "pp", Expr: &Expr{Kind: KThis}, Direct: []Ref{{Type: ab}}},
+		&Relation{Name: "pq", Expr: &Expr{Kind: KInter, Children: []*Expr{{Kind: KComputed, Rel: "pw"}, {Kind: KComputed, Rel: "pp"}}}},
 		&Relation{Name: "member", Expr: &Expr{Kind: KUnion, Children: []*Expr{{Kind: KThis}, {Kind: KComputed, Rel: "owner"}}}, Direct: []Ref{{Type: a}, {Type: doc.Name, Rel: "owner"}}},
 		&Relation{Name: "owner", Expr: &Expr{Kind: KUnion, Children: []*Expr{{Kind: KThis}, {Kind: KComputed, Rel: "x"}}}, Direct: []Ref{{Type: b, Wild: true}, {Type: doc.Name, Rel: "member"}}})
 	m.Types = append(m.Types, doc)
